@@ -248,10 +248,9 @@ static void runSweep32(const Opt &o, Ev &ev) {
         if (sg ? ((int32_t) v < 0 || v > 9) : v >= (uint32_t) base) nt++;
         if (!ok || back != v || ctx.cmd_error || SCPI_ErrorCount(&ctx) != 0) {
             RT c = mkInt(sg ? O_I32 : O_U32, v, base);
-            std::string m = roundTrip(c);
-            if (m.empty()) m = fmt("shortcut round trip failed: text '%s' ok=%d back=%u: ", g_cap, (int) ok, back) + describe(c);
+            std::string m = fmt("result -> parameter round trip on a bare context (result function called outside a handler, as the maintainers' tests do) failed: text '%s' accepted=%d value=%u: ", g_cap, (int) ok, back) + describe(c);
             SCPI_ErrorClear(&ctx);
-            failEnum(o, ev, "one", replayOf(c), m);
+            failEnum(o, ev, "shortcut", fmt("v=%u\nbase=%d\nsigned=%d\n", v, base, sg), m);
             return ev.failures.size() < 5;
         }
         return true;
@@ -399,8 +398,24 @@ static std::string bodyRand(Src &s, Ev &ev) {
     return m;
 }
 
+// replay of one shortcut round trip on a fresh bare context
+static std::string replayShortcut(const Replay &r) {
+    uint32_t v = (uint32_t) strtoul(r.get("v", "0").c_str(), nullptr, 10); int base = (int) r.num("base", 10), sg = (int) r.num("signed");
+    scpi_t ctx; scpi_interface_t ifc; memset(&ifc, 0, sizeof ifc); ifc.write = capWrite; ifc.error = capErr;
+    char inb[16]; scpi_error_t q[4]; scpi_command_t none[] = {SCPI_CMD_LIST_END};
+    SCPI_Init(&ctx, none, &ifc, scpi_units_def, 0, 0, 0, 0, inb, sizeof inb, q, 4);
+    ctx.output_count = 0; g_capLen = 0;
+    if (sg) SCPI_ResultInt32(&ctx, (int32_t) v); else SCPI_ResultUInt32Base(&ctx, v, (int8_t) base);
+    g_cap[g_capLen] = 0;
+    ctx.param_list.lex_state.buffer = ctx.param_list.lex_state.pos = g_cap; ctx.param_list.lex_state.len = (int) g_capLen; ctx.input_count = 0;
+    uint32_t back = ~v; scpi_bool_t ok = sg ? SCPI_ParamInt32(&ctx, (int32_t *) &back, TRUE) : SCPI_ParamUInt32(&ctx, &back, TRUE);
+    if (!ok || back != v) return fmt("bare-context round trip of %u (base %d, signed %d): text '%s' accepted=%d value=%u", v, base, sg, g_cap, (int) ok, back);
+    return "";
+}
+
 int main(int argc, char **argv) {
     std::vector<Sub> subs;
+    subs.push_back({"shortcut", [](const Opt &, Ev &) {}, replayShortcut});
     auto replayOne = [](const Replay &r) { return roundTrip(fromReplay(r)); };
     subs.push_back({"one", [](const Opt &, Ev &) {}, replayOne});
     subs.push_back({"smallints", runSmallInts, replayOne});
